@@ -142,6 +142,9 @@ class C02(Check):
         if kind == "clifford":
             weights = [4, 3, 2, 1, 0]
         entry = entries[tape.weighted(weights, "entry")]
+        if entry in ("run", "run_sweep", "sample") and not any(
+                cirq.is_measurement(op) for op in circuit.all_operations()):
+            entry = "simulate"      # nothing to sample (the channels used up the enumeration budget): run() refuses
         if entry == "sample" and g.has_nonunitary_channel:
             # cirq.sample() documents its choice: anything that is not unitary goes to the density-matrix
             # simulator, which applies keyed channels whole and records nothing for them
